@@ -8,7 +8,8 @@ from sklearn.utils.validation import _is_arraylike, check_is_fitted
 from sklearn.metrics import roc_auc_score, roc_curve, precision_recall_curve
 import numpy as np
 from abc import ABCMeta, abstractmethod
-from ._util import ArrayIndexer, check_input, validate_vector
+from ._util import (ArrayIndexer, check_input, validate_vector,
+                    check_y_valid_values_for_pairs)
 import warnings
 
 
@@ -558,6 +559,7 @@ class _PairsClassifierMixin(BaseMetricLearner, ClassifierMixin):
     score : float
       The ``roc_auc`` score.
     """
+    check_y_valid_values_for_pairs(y)
     return roc_auc_score(y, self.decision_function(pairs))
 
   def set_threshold(self, threshold):
